@@ -12,6 +12,7 @@ import (
 	"bufio"
 	"encoding/json"
 	"fmt"
+	"math"
 	"math/rand"
 	"os"
 	"strconv"
@@ -107,12 +108,22 @@ func (r *runner) exec(o op, hid, i int) (ev event) {
 		r.kinds = []string{o.Kind}
 		ev.Kind = o.Kind
 	case "push":
-		r.qs[o.Q-1].Push(utils.NewPriorityQueueItem(float32(o.P), item{o.P, o.T}))
+		prio := float32(o.P)
+		if o.P == 0 && o.T >= "e" {
+			prio = float32(math.Copysign(0, -1)) // negative zero: equal to zero, not below it - a legal priority
+		}
+		r.qs[o.Q-1].Push(utils.NewPriorityQueueItem(prio, item{o.P, o.T}))
 		ev.P, ev.T = o.P, o.T
 	case "pop":
+		if (hid+i)%3 == 0 {
+			readOnly(r.qs[o.Q-1])
+		}
 		it := r.qs[o.Q-1].Pop()
 		ev.P, ev.T = int(it.Priority()), it.Value().(item).T
 	case "peek":
+		if (hid+i)%2 == 0 {
+			readOnly(r.qs[o.Q-1])
+		}
 		it := r.qs[o.Q-1].Peek()
 		ev.P, ev.T = int(it.Priority()), it.Value().(item).T
 	case "reverse":
@@ -123,6 +134,15 @@ func (r *runner) exec(o op, hid, i int) (ev event) {
 	}
 	ev.Qs = r.dump()
 	return ev
+}
+
+// readOnly calls the accessors that only look at a queue; whatever order they report in, the queue itself pops and
+// peeks afterwards as if nobody had looked
+func readOnly(q utils.PriorityQueue) {
+	if n := len(q.Values()); n != q.Len() {
+		panic(fmt.Sprintf("Values() has %d elements, Len() is %d", n, q.Len()))
+	}
+	_ = q.ToSlice()
 }
 
 func main() {
@@ -235,7 +255,7 @@ func random(n, maxlen int, seed int64, out string) {
 			x := rng.Intn(10)
 			switch {
 			case x < 5 || r.qs[q].Len() == 0:
-				it := item{1 + rng.Intn(nprio), tags[rng.Intn(len(tags))]}
+				it := item{rng.Intn(nprio + 1), tags[rng.Intn(len(tags))]}
 				if held[q][it] {
 					continue
 				}
